@@ -319,6 +319,17 @@ def setkey(x, k, v):
     return {k: v}
 
 
+def argmut(x, a, b="-"):
+    """mutates, in place, its first ARGUMENT (typically the value of a link); a second argument given by the same link
+    text is a value of its own and must not show the change"""
+    _log("argmut")
+    if isinstance(a, list):
+        a.append("ARG")
+    elif isinstance(a, dict):
+        a["ARG"] = 1
+    return "%s|%s|%s" % (_r(x), _r(a), _r(b))
+
+
 def deepmut(x, v="deep"):
     """mutates, in place, an element nested inside the input (depth 2)"""
     _log("deepmut")
@@ -368,7 +379,7 @@ def after3(x):
 
 FIRST = [one, lit, num, flt, mk, firstcat]
 DATA = [add, mulf, flagged, pair, none_default, optint, optfb, unann, cat, ident, withctx, sub, subin, nocache, recache, ctxmut, boom, needs,
-        push, setkey, dfcol, deepmut, after1, after2, after3]
+        push, setkey, dfcol, deepmut, argmut, after1, after2, after3]
 STATE = [getvar, tag, mutvar]
 ATTRS = {"attr_up": dict(ABC="abc"), "attr_low": dict(abc="x"), "vol": dict(volatile=True),
          "attr_camel": dict(contextMenu="m", sourceURL="u", Xy="kept"), "nonvol": dict(volatile=False)}
